@@ -214,6 +214,77 @@ theorem copyAssignDefault_eq (cfg : Cfg) (c o : Nat) (w : World α) (hsz : (w.hd
             rw [setSize_run, hk]
             rfl
 
+/-- the in-place part of copy assignment (source fits in the current capacity) is the in-place part of `assign_with_range` -/
+theorem copyInPlace_eq (cfg : Cfg) (c o : Nat) (w : World α) (hfit : ¬ (w.hdr c).cap < (w.hdr o).size) :
+    (copyAssignInPlace cfg c (w.hdr c) (w.hdr o) (decide ((w.hdr c).size < (w.hdr o).size)) >>= fun _ => setSize c (w.hdr o).size) w =
+      assignWithRangeFwd cfg c (srcsCopy (w.hdr o).data 0 (w.hdr o).size) w := by
+  unfold assignWithRangeFwd
+  rw [bind_run (m := getV c), getV_run]
+  simp only [srcsCopy_length]
+  have f0 : guard_assignWithRange1_0 { genv cfg (w.hdr c) with count := (w.hdr o).size } = decide ((w.hdr c).cap < (w.hdr o).size) := rfl
+  have f1 : guard_assignWithRange1_1 { genv cfg (w.hdr c) with count := (w.hdr o).size } = decide ((w.hdr c).size < (w.hdr o).size) := rfl
+  rw [f0, f1]
+  simp only [hfit, decide_false, Bool.false_eq_true, if_false]
+  by_cases hless : (w.hdr c).size < (w.hdr o).size
+  · simp only [hless, decide_true, if_true]
+    unfold copyAssignInPlace
+    simp only [if_true]
+    rw [srcsCopy_take _ _ _ _ (Nat.le_of_lt hless), srcsCopy_drop, Nat.zero_add]
+    simp only [bind_run]
+    cases assignGen cfg (w.hdr c).data 0 (srcsCopy (w.hdr o).data 0 (w.hdr c).size) w with
+    | thrown e w1 => rfl
+    | ok u w1 => rfl
+  · simp only [hless, decide_false, Bool.false_eq_true, if_false]
+    unfold copyAssignInPlace
+    simp only [Bool.false_eq_true, if_false]
+    simp only [bind_run]
+    cases h1 : assignGen cfg (w.hdr c).data 0 (srcsCopy (w.hdr o).data 0 (w.hdr o).size) w with
+    | thrown e w1 => rfl
+    | ok u w1 =>
+      simp only []
+      have hh1 : w1.hdr = w.hdr := by have := HdrKept.assignGen cfg (w.hdr c).data (srcsCopy (w.hdr o).data 0 (w.hdr o).size) 0 w; rw [h1] at this; exact this
+      unfold eraseRange
+      rw [bind_run, getV_run, hh1]
+      simp only []
+      have g0 : guard_eraseRange_0 { numInsert := (w.hdr c).size - (w.hdr o).size } = decide ((w.hdr c).size - (w.hdr o).size ≠ 0) := rfl
+      rw [g0]
+      by_cases heq : (w.hdr c).size - (w.hdr o).size = 0
+      · simp only [heq, ne_eq, not_true_eq_false, decide_false, Bool.false_eq_true, if_false]
+        have hd0 : destroyRange cfg (w.hdr c).data (w.hdr o).size 0 w1 = .ok () w1 := rfl
+        rw [hd0]
+        simp only []
+        rw [setSize_run]
+        have hsame : (w.hdr o).size = (w1.hdr c).size := by rw [hh1]; omega
+        have : ({ w1 with hdr := upd w1.hdr c { w1.hdr c with size := (w.hdr o).size } } : World α) = w1 := by
+          rw [hsame, upd_self]
+        rw [this]
+        rfl
+      · simp only [heq, ne_eq, not_false_eq_true, decide_true, if_true]
+        rw [bind_run, Nat.sub_self, moveLeft_zero]
+        simp only [Nat.add_zero]
+        unfold eraseToEnd
+        rw [bind_run, bind_run, getV_run, hh1]
+        simp only []
+        have g1 : guard_eraseToEnd_0 { genv cfg (w.hdr c) with pos := (w.hdr o).size } = decide ((w.hdr c).size - (w.hdr o).size ≠ 0) := rfl
+        rw [g1]
+        simp only [heq, ne_eq, not_false_eq_true, decide_true, if_true]
+        rw [bind_run, setSize_run]
+        simp only []
+        have hR := destroyRange_hdr cfg (w.hdr c).data ((w.hdr c).size - (w.hdr o).size) (w.hdr o).size w1
+          (upd w1.hdr c { w1.hdr c with size := (w.hdr o).size })
+        rw [hR]
+        have hk := HdrKept.destroyRange cfg (w.hdr c).data ((w.hdr c).size - (w.hdr o).size) (w.hdr o).size w1
+        cases hd : destroyRange cfg (w.hdr c).data (w.hdr o).size ((w.hdr c).size - (w.hdr o).size) w1 with
+        | thrown e w2 =>
+          obtain ⟨_, w3, h3⟩ := destroyRange_noThrow cfg (w.hdr c).data ((w.hdr c).size - (w.hdr o).size) (w.hdr o).size w1
+          rw [hd] at h3; cases h3
+        | ok u2 w2 =>
+          rw [hd] at hk
+          simp only [Res.world] at hk
+          simp only [Res.mapW]
+          rw [setSize_run, hk]
+          rfl
+
 /-- the elements of another container `o` as assignment sources for `c` -/
 theorem foreign_of_other {cfg : Cfg} {w : World α} {c o : Nat} (hvo : VecOK cfg w o) (hl : Ledger w)
     (hd : (w.hdr o).data ≠ (w.hdr c).data) (hi : (w.hdr o).data ≠ (w.hdr c).inl) :
